@@ -361,3 +361,67 @@ type Prog struct {
 	UB    bool   `json:"ub"`
 	Want  int    `json:"want"`
 }
+
+// DoubleProg returns a copy of p whose function contains its blocks twice (the second copy with
+// shifted references and suffixed names, sharing the parameters): two users with textually
+// identical operand lists in one function. Not valid LLVM (the copy is unreachable); meant for the
+// library's parser only. nil if p has no function body.
+func DoubleProg(p *Prog) *Prog {
+	if len(p.Fn.Blocks) == 0 {
+		return nil
+	}
+	b, err := json.Marshal(p)
+	if err != nil {
+		return nil
+	}
+	var d, e Prog
+	if json.Unmarshal(b, &d) != nil || json.Unmarshal(b, &e) != nil {
+		return nil
+	}
+	nb := len(p.Fn.Blocks)
+	var shiftConst func(k *Const)
+	shiftConst = func(k *Const) {
+		if k == nil {
+			return
+		}
+		if k.C == "blockaddress" {
+			k.B += nb
+		}
+		for i := range k.Es {
+			shiftConst(&k.Es[i])
+		}
+		for i := range k.Ops {
+			shiftConst(&k.Ops[i])
+		}
+	}
+	shift := func(c *Case) {
+		if c.Name != "" {
+			c.Name += "_2"
+		}
+		for i := range c.Ops {
+			r := c.Ops[i].V
+			if r == nil {
+				continue
+			}
+			switch r.R {
+			case "inst", "term", "block":
+				r.B += nb
+			case "const":
+				shiftConst(r.C)
+			}
+		}
+	}
+	for bi := range e.Fn.Blocks {
+		blk := e.Fn.Blocks[bi]
+		if blk.Name != "" {
+			blk.Name += "_2"
+		}
+		for ii := range blk.Insts {
+			shift(&blk.Insts[ii])
+		}
+		shift(&blk.Term)
+		d.Fn.Blocks = append(d.Fn.Blocks, blk)
+	}
+	d.ID += "#twice"
+	return &d
+}
